@@ -9,7 +9,7 @@
    same-order sequence of v-model attributes. *)
 From VJ Require Import Model.Str Model.Json Model.Ast Model.State Model.Util Model.Directive
   Model.Lower Model.Visitor Spec.JsxText Spec.OutViews Spec.Site Spec.SiteCheck Lemmas.SiteProofs
-  Lemmas.AttrsProofs Lemmas.DirsProofs Lemmas.ContribsProofs.
+  Lemmas.AttrsProofs Lemmas.DirsProofs Lemmas.ContribsProofs Lemmas.ElementProofs.
 
 Definition C05_full_statement : Prop :=
   forall E el s, filter (starts_with (s_ "C05:")) (check_site E 40 el (fst (lower_el E el s))) = [].
@@ -99,3 +99,12 @@ Example C05_nonvacuous :
             /\ user_value (dflt_value (dp_value (spec_directive_parts d value))) = true
             /\ sort_dedup (dp_mods (spec_directive_parts d value)) = [s_ "trim"].
 Proof. eexists. vm_compute. repeat split. Qed.
+
+(* the full statement on the fragment of Lemmas/ElementProofs.v (see Props/C01.v): no complaint of
+   any kind, in particular none of this property *)
+Theorem C05_full_statement_on_fragment : forall E,
+  o_merge_props (e_opts E) = false ->
+  forall h el, good E h el -> forall f s, (h <= f)%nat -> assign_left s = None ->
+  filter (starts_with (s_ "C05:")) (check_site E f el (fst (lower_el E el s))) = [].
+Proof. intros E MP h el G f s LE Q. destruct (element_refines E MP h el G f s LE Q) as [H _]. rewrite H. reflexivity. Qed.
+Print Assumptions C05_full_statement_on_fragment.
